@@ -12,7 +12,7 @@ def task_body(depth: int):
     sleep = st.builds(lambda t: {"k": "sleep", "t": t}, st.sampled_from([0.25, 0.5, 1, 2, 3]))
     wait = st.builds(lambda g: {"k": "wait", "gate": g}, st.integers(0, 3))
     simple = st.one_of(sleep, sleep, wait, st.just({"k": "yield"}), st.just({"k": "probe", "lookups": [], "fp": True}))
-    fail = st.builds(lambda e: {"k": "raise", "exc": e}, st.sampled_from(["Exception", "ExcSubclass"]))
+    fail = st.builds(lambda e: {"k": "raise", "exc": e}, st.sampled_from(["Exception", "ExcSubclass", "FalsyExc"]))
     ops = [simple, simple]
     if depth > 0:
         # cleanup code of a spawned task that spawns a follow-up task (runs also while the group is shutting down)
@@ -57,7 +57,7 @@ def program(disp_faults: bool = True, body_raises: bool = True, max_leaves: int 
     probe = st.just({"k": "probe", "lookups": [], "fp": True})
     sleep = st.builds(lambda t: {"k": "sleep", "t": t}, st.sampled_from([0.25, 0.5, 1, 2]))
     spawn = st.builds(lambda v, b: {"k": "spawn", "via": v, "body": b}, st.sampled_from(["ctx", "ctx", "ctx", "asyncio"]), task_body(1))
-    raise_ = st.builds(lambda e: {"k": "raise", "exc": e}, st.sampled_from(["Exception", "ExcSubclass", "BaseExc"]))
+    raise_ = st.builds(lambda e: {"k": "raise", "exc": e}, st.sampled_from(["Exception", "ExcSubclass", "BaseExc", "FalsyExc"]))
     leaf_ops = st.one_of(probe, sleep, spawn, spawn, st.just({"k": "yield"}))
     disp = fault_disp() if disp_faults else P.simple_disp_strategy()
 
